@@ -6887,6 +6887,24 @@ class SFTPServerHandler(SFTPHandler):
         if src and dst:
             read_to_end = read_from_length == 0
 
+            if read_to_end:
+                # Copy up to where the source ends now. When the data is
+                # written to a later part of the same file, its end would
+                # otherwise move away as fast as the copy advances.
+                result = self._server.fstat(src)
+
+                if inspect.isawaitable(result):
+                    result = await cast(Awaitable[_SFTPOSAttrs], result)
+
+                if isinstance(result, os.stat_result):
+                    result = SFTPAttrs.from_local(result)
+
+                src_size = cast(SFTPAttrs, result).size
+
+                if src_size is not None:
+                    read_to_end = False
+                    read_from_length = max(src_size - read_from_offset, 0)
+
             while read_to_end or read_from_length:
                 if read_to_end:
                     size = _COPY_DATA_BLOCK_SIZE
@@ -6912,6 +6930,9 @@ class SFTPServerHandler(SFTPHandler):
 
                 if not read_to_end:
                     read_from_length -= len(data)
+
+                # Let other tasks run between the blocks of a long copy
+                await asyncio.sleep(0)
         else:
             raise SFTPInvalidHandle('Invalid file handle')
 
